@@ -39,7 +39,7 @@ def check(ctx):
     pc.private_kmodel(ctx)
     found = False
     if vlib.build_harness(ctx, ["proto"]):
-        n, length = (14, 26) if ctx.tier == "quick" else (96, 60)
+        n, length = (14, 26) if ctx.tier == "quick" else (56, 50)
         traces = vlib.corpus_traces(ctx, "proto", corpus="proto-cms")
         traces += vlib.parallel_traces(ctx, "proto", n, length, procs=14, extra_args=["profile=cms"])
         found = pc.judge(ctx, traces, signature, sample_pref=("send", "flip", "updateid", "childid", "pubreadd"))
